@@ -108,6 +108,7 @@ type SigSpec struct {
 	Attrs      []AssignSpec
 	StartValue float64
 	SendType   int
+	Reset      bool // set the same type / unit / enum a second time before the signal is used
 	Size       int // expected size (generator's own computation)
 }
 type IfRef struct{ Node, Num int }
@@ -188,6 +189,8 @@ type genOpts struct {
 	Buses    int // number of buses (0: 1..3)
 	Clones   bool // renamed Clone()s of types / units / enums, referenced next to their originals
 	CaseTwin bool // names that differ only by case ("Can" / "CAN") for every named kind
+	NonASCII bool // names with 2-, 3- and 4-byte runes (caseless or lower-case, so ToLower keeps them)
+	Huge     bool // one very long name / description (5 KB, 20 KB) for every entity kind
 	Special  bool // '|' in names and descriptions, line breaks in strings that only appear in table cells
 	Collide  bool // names that collide after clearSpaces ("a b" / "a_b")
 }
@@ -270,6 +273,9 @@ func (g *gen) uname(prefix string) string {
 	}
 	g.uniq++
 	n := fmt.Sprintf("%s%d %s", prefix, g.uniq, g.word(1, 5))
+	if g.o.NonASCII && g.r.chance(35) {
+		n += " " + []string{"Steuerger\u00e4t", "\u00e4\u00f6\u00fc\u00df", "\u6e29\u5ea6\u30bb\u30f3\u30b5", "\u20ac\u2211", "\U0001F600\U0001F697", "a\u00e4\u65e5\U0001F600z"}[g.r.below(6)]
+	}
 	if g.o.Special && g.r.chance(12) { // a name is legal with a line break, also one followed by block syntax
 		n += []string{"\n## second line", "\r\nsecond", "\n---", "\nsecond line", "\r- x"}[g.r.below(5)]
 	}
@@ -549,6 +555,38 @@ func genSpec(r *rng, o genOpts) *Spec {
 		}
 		sp.Buses = append(sp.Buses, b)
 	}
+	if o.Huge {
+		big := func(n int) string { return "h" + strings.Repeat("0123456789abcdef ", n/17) + "end" }
+		sp.Desc = big(20000)
+		sp.Name += " " + big(5000)
+		if len(sp.Types) > 0 {
+			sp.Types[0].Desc = big(5000)
+			sp.Types[0].Name += " " + big(5000)
+		}
+		sp.Units[0].Desc, sp.Enums[0].Desc = big(5000), big(5000)
+		if len(sp.Enums[0].Vals) > 0 {
+			sp.Enums[0].Vals[0].Desc = big(5000)
+		}
+		sp.Nodes[0].Desc = big(5000)
+		sp.Nodes[0].Name += " " + big(5000)
+		for bi, b := range sp.Buses {
+			if bi == 0 {
+				b.Desc = big(20000)
+				b.Name += " " + big(5000)
+			}
+			for _, f := range b.Ifs {
+				for mi, m := range f.Msgs {
+					if mi == 0 {
+						m.Desc = big(5000)
+						m.Name += " " + big(5000)
+						if len(m.Sigs) > 0 {
+							m.Sigs[0].Desc = big(5000)
+						}
+					}
+				}
+			}
+		}
+	}
 	// static CAN-IDs must be unique per bus
 	for _, b := range sp.Buses {
 		seen := map[uint32]bool{}
@@ -723,6 +761,7 @@ func (g *gen) signal(sp *Spec, room, depth int) *SigSpec {
 		s.SendType = r.below(8)
 	}
 	s.Attrs = g.assigns(sp, 30)
+	s.Reset = r.chance(30)
 	switch {
 	case kind < 5: // standard
 		var cands []int
@@ -1109,12 +1148,21 @@ func (b *Built) newSignal(sp *Spec, ss *SigSpec, assign func(string, interface {
 		if ss.Unit >= 0 {
 			s.SetUnit(b.Units[ss.Unit])
 		}
+		if ss.Reset { // the same definitions once more: nothing may change
+			b.chk("SetType(same)", s.SetType(b.Types[ss.Type]))
+			if ss.Unit >= 0 {
+				s.SetUnit(b.Units[ss.Unit])
+			}
+		}
 		sig = s
 	case 1:
 		s, err := a.NewEnumSignal(ss.Name, b.Enums[ss.Enum])
 		b.chk("NewEnumSignal", err)
 		if s == nil {
 			return nil
+		}
+		if ss.Reset {
+			b.chk("SetEnum(same)", s.SetEnum(b.Enums[ss.Enum]))
 		}
 		sig = s
 	case 2:
